@@ -330,10 +330,29 @@ def ff_specialized_command(repo, res, rule="FF"):
                 return True
             if t[0] == "bind" and t[2] in ("cmd", "0"):
                 return True
-            if t[0] == "proj" and t[2] == 0 and t[1][0] == "bind":
-                return True  # Some((cmd, _)) of the plain-definition fallback map
+            if t[0] in ("deref", "ref"):
+                return cmd_like(t[1])
+            if t[0] == "proj" and t[2] == 0 and t[1][0] in ("bind", "elem"):
+                return True  # Some((cmd, _)) of the plain-definition fallback map (matched, or mapped over the Option)
             return False
         ok = all(cmd_like(t) for t in alts) and len(alts) >= 2
+        if not ok:
+            # the command comes out of a lookup helper of the module: component 0 of what it returns, and every pair the helper returns
+            # has a spec's command in that place
+            t = P.peel(cmd)
+            if t[0] == "proj" and t[2] == 0:
+                src = t[1]
+                while src[0] in ("bind", "try") or (src[0] == "mcall" and src[1] in ("unwrap", "expect")):
+                    src = src[3] if src[0] == "bind" else (src[1] if src[0] == "try" else src[2])
+                if src[0] == "call":
+                    h = repo.fn(f"{fn.module}::{P.last(src[1])}")
+                    if h is not None and h is not fn:
+                        henvs = A.collect_envs(h)
+                        firsts = []
+                        for tp in A.walk(h.body):
+                            if tp["k"] == "Tuple" and len(tp["elems"]) == 2:
+                                firsts.append(A.resolve(tp["elems"][0], henvs.get(id(tp))))
+                        ok = len(firsts) >= 2 and all(cmd_like(x) or cmd_like(("tuple", (x,))) for x in firsts)
         res.check(ok, rule, f"{rule}:{fq}:{tag}:Command.cmd", f"Expr::Command.cmd <= {A.show(cmd)[:200]}", loc)
         for fld, src in (("fallback", "fallback"), ("span", "span")):
             p = A.resolve(P.ctor_field(s, fld), env)
